@@ -157,7 +157,7 @@ func (r *chainRun) checkCrashImage(d *simkv.Disk, k, W int, v0 *nodeView, finalT
 			r.rc.St.Probes["crash-reached-final-tip"]++
 		}
 		// bounded liveness after the fault: the node keeps working
-		blk, err := c.Mine(MineOpts{MaxTx: -1})
+		blk, err := c.MineReal()
 		if err != nil {
 			return r.viol("crash-node-stuck", "crash at %d/%d: restarted node cannot mine a further block: %v", k, W, err)
 		}
